@@ -6,6 +6,20 @@ HERE = os.path.dirname(os.path.dirname(os.path.abspath(__file__)))
 PROPS = [json.loads(l)['id'] for l in open(os.path.join(HERE, 'properties.jsonl'))]
 
 CHECKS = {
+ 'C14': dict(category='other', design_ref='DESIGN.md section 4 (C08 / C09 / C10 / C14)',
+    text='Partial proof + bounded. Proved on all control paths of the real functions (enumerated from the ast with assignment / branch / '
+         'call events): _evaluate_require stores a package under its require string only where that string was not yet in the table, '
+         'enters it before the recursive descent (shared packages and cycles give one entry each), resolves nested requires relative '
+         'to the package\'s own file, opens only the located file and raises LuaBuildError for an unresolved one; '
+         'RequireWalker yields a require() only where every argument-shape error test was negative (1-2 arguments, a string literal, '
+         'the single option use_game_loop=<bool>); _prepend_package_lua emits the package-table preamble, then per table entry in '
+         'insertion order header + package lines (+ newline if missing) + end, then the loader, then the main program\'s lines, and '
+         'returns the program unchanged when there are no packages; the preamble constants are the loader the statement describes.',
+    note='Bounded (never counted as proved): that the built code parses, defines each name once and contains every package token for '
+         'token minus its top-level game-loop definitions -- package graphs (single, diamond, nested directories, custom load path) x '
+         'reference-grammar bodies with game-loop functions at start / middle / end x with / without final newline x use_game_loop, '
+         'built by the real do_build and re-lexed with the reference tokenizer; malformed / unresolvable require() must fail.',
+    technique='path-complete verification of visited-once / ordering / validation / emission contracts over the real build functions + bounded package-graph builds'),
  'C08': dict(category='other', design_ref='DESIGN.md section 4 (C08 / C09 / C10 / C14)',
     text='Partial proof + bounded. Proved (pyvc VCs, z3): Parser._accept -- the one function through which the cursor ever advances '
          '(a scan of the class shows every other write of the cursor restores a position saved in the same function) -- meets its '
@@ -244,7 +258,7 @@ CHECKS = {
     technique='contract-based deductive verification: VCs from the real AST (pyvc), z3 LIA + arrays'),
 }
 
-PENDING = 'check not built yet (work in progress, see DESIGN.md section 10)'
+PENDING = 'no check is claimed for this property (see DESIGN.md)'
 
 
 def main():
